@@ -522,6 +522,16 @@ def set_subscript(E, base, idx, v, node, fr):
         k = z3.simplify(norm_index(idx, n))
         x = E.to_sv(v, sv.ty.elem)
         new = z3.Concat(z3.Extract(sv.t, 0, k), z3.Unit(x.t), z3.Extract(sv.t, k + 1, n - k - 1))
+        if not z3.is_int_value(k) and not E.spec_mode:
+            # symbolic position: also give the update in select/store form (follows from the sequence form), so that
+            # quantified facts about the old list are found by E-matching on the new one
+            nm = E.fresh("upd", sv.ty)
+            j = z3.Int("uj")
+            E.assume(nm.t == new)
+            E.assume(z3.Length(nm.t) == n)
+            E.assume(nm.t[k] == x.t)
+            E.assume(z3.ForAll([j], z3.Implies(z3.And(0 <= j, j < n, j != k), nm.t[j] == sv.t[j]), patterns=[nth_pat(nm.t, j)]))
+            new = nm.t
         E.setcell(base, ("seq", SV(new, sv.ty)))
         return
     if c[0] == "bytearray":
